@@ -75,7 +75,9 @@ def replay_vector(r, harness):
             f.write(json.dumps({"m": d["req"]["m"], "n": d["expected"]}, ensure_ascii=False) + "\n")
         else:
             f.write(json.dumps({"line": d["req"]["line"], "exp": d["expected"]}, ensure_ascii=False) + "\n")
-    s, div, e = _vectors(harness, cls if cls in ("glob", "norm") else "parse", tmp, res)
+    if cls == "ser":
+        with open(tmp, "w", encoding="utf-8") as f: f.write(json.dumps({"line": d["req"]["line"], "src": d["req"]["src"], "exp": d["expected"]}, ensure_ascii=False) + "\n")
+    s, div, e = _vectors(harness, cls if cls in ("glob", "norm", "ser") else "parse", tmp, res)
     for x in div: print("REPLAY-MISMATCH", json.dumps(x, ensure_ascii=False))
     print("vector replayed:", "diverges" if div else "agrees")
     return 1 if div else 0
@@ -109,8 +111,19 @@ def run_parser(prop, tier, seed, harness, workdir, T):
     if s is None:
         out["tool_errors"].append("vectors run failed: " + e); return out
     for x in d: out["violations"].append(_viol(prop, "parse", x))
+    # relay round trip on every grammatical line: parse, re-serialise with a source, re-parse with the harness's tokenizer
+    sv = [{"line": x["line"], "src": "nick!~user@host", "exp": {"prefix": "nick!~user@host", "command": x["exp"]["command"], "params": x["exp"]["params"]}}
+          for x in v if x["exp"].get("msg") == "ok" and "params" in x["exp"]]
+    svp = os.path.join(workdir, "ser.vec.ndjson")
+    with open(svp, "w", encoding="utf-8") as f:
+        for x in sv: f.write(json.dumps(x, ensure_ascii=False) + "\n")
+    s2, d2, e2 = _vectors(harness, "ser", svp, os.path.join(workdir, "ser.res.ndjson"))
+    if s2 is None:
+        out["tool_errors"].append("ser vectors run failed: " + e2); return out
+    for x in d2: out["violations"].append(_viol(prop, "ser", x))
     nontriv = sum(1 for x in v if x["exp"].get("msg") == "ok")
-    cov = {"special_traces": s["vectors"], "evaluations": s["vectors"], "distinct_nontrivial": nontriv, "parse_vectors": s["vectors"],
+    cov = {"special_traces": s["vectors"] + s2["vectors"], "evaluations": s["vectors"] + s2["vectors"], "distinct_nontrivial": nontriv, "parse_vectors": s["vectors"],
+           "roundtrip_vectors": s2["vectors"],
            "vector_rule": "every line over {a,Z,1,SP,':',',','#','!','@'} up to the tier's length (exhaustive within the bound) with its reading by the "
                           "reference tokeniser; every verb x 4 letter-case variants x arity 0..min+1; non-trivial = the line is a grammatical message",
            "samples": [{"parse_vector": v[len(v) // 2]}]}
@@ -234,8 +247,8 @@ def replay_timer(r, harness):
 def run_conc(prop, tier, seed, harness, workdir, T):
     from lincheck import lin_validate
     out = {"tool_errors": [], "violations": [], "coverage": {}}
-    plan = [(2, 2), (4, 2), (16, 2)] if tier == "quick" else [(2, 10), (4, 10), (8, 6), (16, 10)]
-    rounds_per = 20 if tier == "quick" else 40
+    plan = [(2, 3), (4, 3), (16, 3)] if tier == "quick" else [(2, 12), (4, 12), (8, 8), (16, 12)]
+    rounds_per = 44 if tier == "quick" else 66
     recs, procs = [], []
     for k, (w, eps) in enumerate(plan):
         rec = os.path.join(workdir, "conc-w%d.ndjson" % w)
